@@ -114,3 +114,17 @@ def dropped_results(fn):
             rets = [r for r in fn.ret_blocks() if r in reach]
             if rets:
                 yield bi, t, "dropped on a path that returns without consuming it (return at bb%s)" % rets[0]
+
+
+def only_error_returns_follow(fn, start):
+    """every path from block `start` to a return assigns `Err(..)` to the return place on the way: `start` lies on an error path
+    (clean-up whose own failure cannot be reported as well, the first error wins)"""
+    from mirutil import blocks_with_agg
+    errs = {bi for bi, si, dest, ops in blocks_with_agg(fn, "core::result::Result", "Err") if dest == [0]}
+    if not errs or start is None:
+        return False
+    if start in errs:
+        return True
+    reach = fn.reachable(start, avoid=errs)
+    return not any(r in reach for r in fn.ret_blocks())
+
